@@ -1,4 +1,6 @@
 import XzVerif.Gen.PanicSites
+import XzVerif.Proofs.GoSrcOpDec
+import XzVerif.Proofs.GoSrcRing
 import XzVerif.Gen.Tables
 import XzVerif.Model.ReadLoop
 import XzVerif.Codec.Lzma2
@@ -132,5 +134,40 @@ theorem C11_lzma2_reader_model_terminates (strict : Bool) (cap : Nat) (inp : Byt
 theorem C11_xz_reader_model_terminates (strict : Bool) (cfgCap : Nat) (single : Bool) (inp : ByteArray) :
     (Xz.read strict cfgCap single inp).status ≠ .err "fuel exhausted" :=
   Fuel.xz_read_fuel strict cfgCap single inp
+
+/-! ### From the SOURCE: no panic in the per-operation decoder (regenerated translation, Gen/GoSrc.lean)
+
+  `decoder.readOp` with everything below it — the six probability arrays indexed by state and position state, the length /
+  distance / literal codecs with their Go slices and arrays, the range decoder — as written in Go: whatever the input bytes,
+  a call on a well-formed coder state returns (an operation, the end marker, or io.EOF); none of Go's index or slice-bounds
+  checks fires and the loop bounds of the translation are not reached.  `decoderDict.byteAt` never panics on a well-formed
+  ring.  (The translation makes every bounds check of the source explicit as `Go.Res.panic`.) -/
+
+open Lzma Rc in
+theorem C11_source_readOp_no_panic (fuel : Nat) (g : GoSrc.T_decoder) (s : St) (tbl : Tbl) (p : Props) (d : Rc.Dec)
+    (pos : Nat) (bat : Nat → Nat)
+    (sr : GoSrcP.StRel g.State s tbl p) (rel : GoSrcP.DecRel g.rd d) (inv : GoSrcP.DecInv d)
+    (hpos : g.Dict.head.toNat = pos) (hposlt : pos < 2 ^ 62)
+    (hbat : ∀ dist : BitVec 64, GoSrc.decoderDict_byteAt g.Dict dist = Go.Res.ok (BitVec.ofNat 8 (bat dist.toInt.toNat)))
+    (hbat256 : ∀ k, bat k < 256) (hfuel : 200 ≤ fuel) :
+    ∃ r, GoSrc.decoder_readOp fuel g = Go.Res.ok r := by
+  have h := GoSrcP.readOp_refines fuel g s tbl p d pos bat sr rel inv hpos hposlt hbat hbat256 hfuel
+  cases hd : decTree pm (opDec (GoSrcP.ctxOf p s pos bat)) tbl d with
+  | none =>
+    rw [hd] at h
+    obtain ⟨op, g', hg⟩ := h
+    exact ⟨_, hg⟩
+  | some r =>
+    obtain ⟨op, tbl', d'⟩ := r
+    rw [hd] at h
+    dsimp only at h
+    rcases (ite_prop_iff_or.mp h) with ⟨_, g', hg, _⟩ | ⟨_, g', hg, _⟩
+    · exact ⟨_, hg⟩
+    · exact ⟨_, hg⟩
+
+theorem C11_source_byteAt_no_panic (g : GoSrc.T_decoderDict) (m : Ring.DDict) (hb : GoSrcP.BufRel g.buf m.buf)
+    (hh : g.head.toNat = m.head) (hhl : m.head < 2 ^ 62) (dist : BitVec 64) :
+    ∃ b, GoSrc.decoderDict_byteAt g dist = Go.Res.ok b :=
+  ⟨_, GoSrcP.decoderDict_byteAt_ring g m hb hh hhl dist⟩
 
 end Props.C11
